@@ -8,7 +8,7 @@ Oracle: reference TBCD written from 3GPP TS 29.002 (swap nibbles pairwise, 'f' f
 from typing import List
 
 from vf.driver import Q
-from vf.h import P, reached, note, lib_errors
+from vf.h import REPLAY, P, reached, note, lib_errors
 
 from bromelia.utils import encode_to_tbcd, decode_from_tbcd
 from bromelia.avps import MsisdnAVP, StnSrAVP
@@ -43,7 +43,7 @@ def enc_str(d: List[int]) -> bool:
     out = encode_to_tbcd(s)
     reached()
     exp = ref_tbcd(s)
-    note(input=s, observed=out, expected=exp)
+    if REPLAY: note(input=s, observed=out, expected=exp)
     return out == exp and (("f" in out) == (len(s) % 2 == 1))
 
 
@@ -56,7 +56,7 @@ def dec_ref(d: List[int]) -> bool:
     s = _digits(d)
     out = decode_from_tbcd(ref_tbcd(s))
     reached()
-    note(input=ref_tbcd(s), observed=out, expected=s)
+    if REPLAY: note(input=ref_tbcd(s), observed=out, expected=s)
     return out == s
 
 
@@ -70,7 +70,7 @@ def roundtrip(d: List[int]) -> bool:
     e = encode_to_tbcd(s)
     back = decode_from_tbcd(e) if e is not None else None
     reached()
-    note(input=s, encoded=e, decoded=back)
+    if REPLAY: note(input=s, encoded=e, decoded=back)
     return back == s
 
 
@@ -90,7 +90,7 @@ def avp_int(d: List[int]) -> bool:
     avp = cls(arg)
     reached()
     exp = bytes.fromhex(ref_tbcd(s))
-    note(input=repr(arg), observed=avp.data.hex() if avp.data is not None else None, expected=exp.hex())
+    if REPLAY: note(input=repr(arg), observed=avp.data.hex() if avp.data is not None else None, expected=exp.hex())
     hexed = avp.data.hex()
     return (avp.data == exp and decode_from_tbcd(hexed) == s and avp.get_length() == 12 + len(exp)
             and len(avp.dump()) % 4 == 0)
